@@ -52,6 +52,16 @@ def header_sig(ev):
 def diff_sig(ev):
     if ev is None:
         return "difficulty:trace:eof"
+    k = ev.get("k")
+    if k == "GraphWeight":
+        # difficulty:graph_weight:<chain type>:eb<edge bits>:<before | during-or-after the C31 phase-out start>
+        return "difficulty:graph_weight:%s:eb%s:%s" % (ev.get("ct"), ev.get("eb"), "from_year1" if ev.get("h", 0) >= 524160 else "before_year1")
+    if k == "Version":
+        return "difficulty:header_version:%s:returned_v%s" % (ev.get("ct"), ev.get("ret"))
+    if k == "Params":
+        return "difficulty:chain_params:%s" % ev.get("ct")
+    if k == "PowDiff":
+        return "difficulty:to_difficulty:%s:%s:%s" % (ev.get("ct"), "secondary" if ev.get("eb") == 29 else "primary", ev.get("src", "?"))
     return "difficulty:trace:%s:%s:len%s" % (ev.get("ct"), ev.get("src", "?"), "<61" if len(ev.get("w", [])) < 61 else ">=61")
 
 
@@ -106,7 +116,9 @@ def check_diff_trace(rep, dp, case, what):
     if not ok:
         c = dict(case)
         c.update({"event_index": d, "event": ev})
-        rep.violation(diff_sig(ev), c, "next_difficulty differs from Difficulty.tla at event %s: %s" % (d, json.dumps(ev)[:400]))
+        fn = {"GraphWeight": "graph_weight", "Version": "header_version / valid_header_version", "Params": "a global.rs chain constant",
+              "PowDiff": "ProofOfWork::to_difficulty"}.get((ev or {}).get("k"), "next_difficulty")
+        rep.violation(diff_sig(ev), c, "%s differs from Difficulty.tla at event %s: %s" % (fn, d, json.dumps(ev)[:400]))
     return ok
 
 
@@ -145,6 +157,14 @@ def run(tier, replay):
             check_chain_trace(rep, tp, case["seed"], case["len"], "replay")
             check_body_sync(rep, info)
             check_diff_trace(rep, dp, {"kind": "chain", "seed": case["seed"], "len": case["len"]}, "replay")
+        elif kind == "crecord":
+            cp = os.path.join(wd, "const.ndjson")
+            vlib.harness(["header", "const-record", "--out", cp, "--seed", case["seed"], "--n", case["n"]])
+            check_diff_trace(rep, cp, {"kind": "crecord", "seed": case["seed"], "n": case["n"]}, "replay")
+        elif kind == "srecord":
+            sp = os.path.join(wd, "store.ndjson")
+            vlib.harness(["header", "store-record", "--dir", os.path.join(wd, "stores"), "--out", sp, "--seed", case["seed"]])
+            check_diff_trace(rep, sp, {"kind": "srecord", "seed": case["seed"]}, "replay")
         elif kind == "drecord":
             dp = os.path.join(wd, "drand.ndjson")
             vlib.harness(["header", "diff-record", "--out", dp, "--seed", case["seed"], "--n", case["n"]])
@@ -157,6 +177,7 @@ def run(tier, replay):
     # ---- (B) the real code runs while TLC works on the models: record now, validate below ----
     length = 30 if thorough else 16
     nrand = 3000 if thorough else 600
+    nconst = 1500 if thorough else 300
     recorded = {}
     wpp, wplans, wr = wire_plans(wd)
 
@@ -169,6 +190,13 @@ def run(tier, replay):
             dp = os.path.join(wd, "drand.ndjson")
             p = vlib.harness(["header", "diff-record", "--out", dp, "--seed", seed, "--n", nrand])
             recorded["drand"] = (dp, json.loads(p.stdout.strip().splitlines()[-1]))
+            cp = os.path.join(wd, "const.ndjson")
+            p = vlib.harness(["header", "const-record", "--out", cp, "--seed", seed, "--n", nconst])
+            recorded["const"] = (cp, json.loads(p.stdout.strip().splitlines()[-1]))
+            sp = os.path.join(wd, "store.ndjson")
+            p = vlib.harness(["header", "store-record", "--dir", os.path.join(wd, "stores"), "--out", sp, "--seed", seed])
+            recorded["store"] = (sp, json.loads(p.stdout.strip().splitlines()[-1]))
+            shutil.rmtree(os.path.join(wd, "stores"), ignore_errors=True)
         except BaseException as e:  # re-raised in the main thread
             recorded["error"] = e
 
@@ -234,6 +262,18 @@ def run(tier, replay):
         ntr += 1
     check_diff_trace(rep, recorded["drand"][0], {"kind": "drecord", "seed": seed, "n": nrand}, "random windows")
     ntr += 1
+    # graph_weight / header_version / chain constants / to_difficulty on the four chain types
+    check_diff_trace(rep, recorded["const"][0], {"kind": "crecord", "seed": seed, "n": nconst}, "consensus functions")
+    ntr += 1
+    # store::DifficultyIter over written headers (secondary and primary mixed, more than a window deep)
+    check_diff_trace(rep, recorded["store"][0], {"kind": "srecord", "seed": seed}, "store-backed windows")
+    ntr += 1
+    sinfo = recorded["store"][1]
+    if sinfo["windows_ge61"] < 50 or sinfo["windows_lt61"] < 50 or sinfo["windows_mixing_secondary_and_primary"] < 100:
+        raise ToolError("store-record is vacuous: %s" % sinfo)
+    cinfo = recorded["const"][1]
+    if min(cinfo["version"], cinfo["graph_weight"], cinfo["pow_diff"]) < 400 or cinfo["pow_diff_out_of_range"] * 10 > cinfo["pow_diff"]:
+        raise ToolError("const-record is vacuous: %s" % cinfo)
 
     main = infos["chain"]
     by = main["by_mutation"]
@@ -264,6 +304,13 @@ def run(tier, replay):
                  if wv.get(w_ + ":now", [0, 0])[0] == 0 or wv.get(w_ + ":far", [0, 0])[1] == 0]
         if thinw or main["wire_plans_run"] < len(wplans):
             raise ToolError("wire plans not exercised for %s: %s run, %s" % (thinw, main["wire_plans_run"], wv))
+        # the side branch: three headers deep, its retarget differing from the trunk's at the same height,
+        # every branch header taken, the one claiming the trunk's difficulty refused
+        if main["fork_len"] != 3 or main["fork_targets_differ"] == 0 or by.get("fork_honest", [0, 0])[0] < 4 \
+                or by.get("fork_trunk_difficulty", [0, 0])[1] == 0 or "fork_total_plus1" not in by:
+            raise ToolError("side branch not exercised: %s" % {k: main[k] for k in ("fork_len", "fork_targets_differ", "fork_targets")})
+        if main["pow_diff_events"] < main["height"]:
+            raise ToolError("no to_difficulty events along the chain: %s" % main["pow_diff_events"])
         if byo["Block:SYNC"][2] == 0 or main["body_synced"] < length:
             raise ToolError("body sync never went through the orphan pool: %s" % byo["Block:SYNC"])
 
@@ -278,6 +325,10 @@ def run(tier, replay):
         "model": {"header": hstats, "difficulty": dstat},
         "difficulty_replay": dinfo,
         "difficulty_trace_events": recorded["drand"][1]["events"] + sum(infos[k]["diff_events"] for k in chains),
+        "consensus_function_events": cinfo,
+        "store_backed_windows": sinfo,
+        "to_difficulty_events_along_chains": sum(infos[k]["pow_diff_events"] for k in chains),
+        "side_branch": {k: {kk: infos[k][kk] for kk in ("fork_len", "fork_targets_differ", "fork_targets")} for k in chains},
         "header_trace": {k: {kk: infos[k][kk] for kk in ("events", "height", "delivered", "accepted", "max_target",
                                                           "pow_exact_found", "pow_low_found", "sync_chunks", "forged_found",
                                                           "body_synced", "body_head_ok")} for k in chains},
@@ -290,8 +341,12 @@ def run(tier, replay):
         "checker_cmd": "tlc mc/MC_Header; tlc mc/MC_Difficulty; tlc trace/HeaderTrace; tlc trace/DifficultyTrace",
     }
     rep.assumptions = [
-        "cycle verification (pow::verify_size), Proof::hash/to_difficulty, blake2b header hash and the header-MMR root are "
-        "primitives: the trace carries powValid / powDiff / rootOK flags measured with them (C05, C07 cover them)",
+        "cycle verification (pow::verify_size), the blake2b header hash and the header-MMR root are primitives: the trace carries "
+        "powValid / rootOK flags measured with them (C05, C07 cover them); powDiff is measured with to_difficulty, and every such "
+        "value (each header of the chains, random proofs on the four chain types) is bound to Difficulty.tla's ProofDifficultyOK "
+        "through an own packing + blake2b of the nonces: the quotient is decided from the longest hash prefix (<= 30 bits) whose "
+        "product with the scale fits 32 bits, so the value is free inside that bracket (exact for almost every AutomatedTesting "
+        "header; one part in 2^k for large mainnet weights) and quotients >= 2*10^9 are not compared",
         "TLC integers are 32-bit: windows with sum(difficulty)*60 >= 2^31, scaling sum*90 >= 2^31, WTEMA difficulty > 149130 "
         "or timestamps >= 2^31 are not covered",
         "options: every entry point is driven with NONE / SYNC / MINE (what servers/src passes) and SKIP_POW combinations; "
